@@ -158,7 +158,23 @@ def discharge(ob, timeout_ms=None, use_cvc5=True, hard=False):
     s.add(*ground_axioms(list(ob.pc) + [ob.goal]))
     hard_model = None
     if hard:
-        rs, hard_model = _check_forked(s, (timeout_ms or Z3_TIMEOUT_MS) / 1000.0 + 5.0)
+        budget = (timeout_ms or Z3_TIMEOUT_MS) / 1000.0
+        rs, hard_model = _check_forked(s, budget + 5.0)
+        if rs == "unknown":
+            # nonlinear arithmetic is unstable: one retry with other seeds and twice the budget before giving up
+            s2 = z3.Solver()
+            s2.set("timeout", int(2000 * budget))
+            s2.set("random_seed", 7)
+            s2.add(*s.assertions())
+            try:
+                z3.set_param("nlsat.seed", 11)
+            except Exception:
+                pass
+            rs, hard_model = _check_forked(s2, 2 * budget + 5.0)
+            try:
+                z3.set_param("nlsat.seed", 0)
+            except Exception:
+                pass
         r = {"unsat": z3.unsat, "sat": z3.sat}.get(rs, z3.unknown)
     else:
         r = s.check()
